@@ -28,6 +28,7 @@ Ceil5(x) == (x + 4) \div 5
 \* ran / exok: processes truly seen RUNNING / exited as expected since their request; acked: seen busy since then
 GInit == [req |-> {}, sreq |-> {}, since |-> 0, aborted |-> {}, lost |-> {}, orders |-> [i \in 1..8 |-> 0],
           everAlive |-> {}, ran |-> {}, exok |-> {}, stamp |-> <<>>, preq |-> {}, stamp0 |-> <<>>, elect |-> FALSE,
+          plans |-> 0,        \* number of plans opened after the first one (user triggers, re-distributions)
           reqby |-> <<>>,     \* reqby[p]: the instance that sent the last start request of p
           sreqby |-> <<>>]    \* sreqby[p]: same for the last stop request   \* preq: requested by the current plan   \* stamp[p][v]: refresh stamp of p at v when p was requested
 
@@ -76,10 +77,22 @@ ReqFailures(st, gg, rq) ==
   IN IF kind = "START"
      THEN (IF \A p \in P : (AppOf(p) = a /\ T.procs[p].seq > 0 /\ T.procs[p].seq < T.procs[q].seq)
                             => Done(st, gg, p, v) THEN {} ELSE {"C03.ProcOrder"})
+          \* the first automatic plan from a cold start holds every application with a start_sequence: all the lower
+          \* ones must be done. A later plan (re-distribution after a join, restart_sequence) only holds the
+          \* applications never started or in failure: the order is judged among what the plan requests - what it
+          \* requested of lower applications is done, and nothing of a higher application was requested before.
           \cup (IF AutoTrigger =>
-                     \A p \in P : (AppOf(p) # a /\ T.apps[AppOf(p)].seq > 0 /\ T.apps[AppOf(p)].seq < T.apps[a].seq
-                                   /\ T.procs[p].seq > 0)
-                                  => (Done(st, gg, p, v) \/ AbortNow(st, gg, AppOf(p), v))
+                     IF gg.plans = 0 /\ T.trigger = "distribution"
+                     THEN \A p \in P : (AppOf(p) # a /\ T.apps[AppOf(p)].seq > 0 /\ T.apps[AppOf(p)].seq < T.apps[a].seq
+                                        /\ T.procs[p].seq > 0)
+                                       => (Done(st, gg, p, v) \/ AbortNow(st, gg, AppOf(p), v)
+                                           \/ \E w \in 1..T.n : st.alive[w] /\ GivenUp(st, gg, p, w))
+                     ELSE /\ \A p \in gg.preq : (AppOf(p) # a /\ T.apps[AppOf(p)].seq > 0
+                                                  /\ T.apps[AppOf(p)].seq < T.apps[a].seq)
+                                                 => (Done(st, gg, p, v) \/ AbortNow(st, gg, AppOf(p), v)
+                                                     \/ \E w \in 1..T.n : st.alive[w] /\ GivenUp(st, gg, p, w))
+                          /\ \A p \in gg.preq : AppOf(p) = a \/ T.apps[AppOf(p)].seq <= T.apps[a].seq
+                                                 \/ T.apps[a].seq = 0
                 THEN {} ELSE {"C03.AppOrder"})
           \cup (IF T.procs[q].seq > 0 /\ (AutoTrigger => T.apps[a].seq > 0) THEN {} ELSE {"C03.ZeroNeverAuto"})
           \cup (IF a \notin gg.aborted THEN {} ELSE {"C03.FailureStrategy"})
@@ -118,7 +131,7 @@ StepFailures(st, gg) ==
         THEN {} ELSE {"C09.OrderAfterStop"})
 
 \* a user trigger opens a new plan: what was given up by an earlier plan does not bind it
-GReset(gg, pre) == [gg EXCEPT !.aborted = {}, !.preq = {}, !.since = 0, !.elect = FALSE,
+GReset(gg, pre) == [gg EXCEPT !.aborted = {}, !.preq = {}, !.since = 0, !.elect = FALSE, !.plans = @ + 1,
                                  !.stamp0 = [p \in P |-> [v \in 1..T.n |-> Stamp(pre, v, p)]]]
 
 \* a new automatic plan: a Master (re-)enters DISTRIBUTION (e.g. after instances joined)
@@ -169,7 +182,7 @@ Terminal(st, gg) ==
       THEN {} ELSE IF gg.elect THEN {"KNOWN.F22"} ELSE {"C03.StopStrategy"})
      \* CONTINUE / optional failures: the plan went on to the end
      \* (judged on the automatic distribution from a cold start: one single plan)
-     \cup (IF (T.trigger = "distribution" /\ ~T.wait_exit_forever) =>
+     \cup (IF (T.trigger = "distribution" /\ gg.plans = 0 /\ ~T.wait_exit_forever) =>
                 \A p \in P : (T.procs[p].seq > 0 /\ AppOf(p) \notin gg.aborted
                               /\ (AutoTrigger => T.apps[AppOf(p)].seq > 0)
                               /\ (T.trigger = "start_application" => T.procs[p].app = T.trigger_app)
